@@ -70,6 +70,10 @@ EXPLANATION += (
     ' Round 9: module-level memo tables are keyed by every parameter their values are computed from (R-MEMO/key-complete).'
 )
 
+EXPLANATION += (
+    ' Round 10: gathers by pandas category codes are masked on the sign of the codes (R-IDIOM/sentinel-code-gather).'
+)
+
 RULE_TEXT = (
     "one obligation per constructor path, per attribute-assignment site, "
     "per mutation candidate, per helper parameter, per accessor x caller, "
